@@ -60,6 +60,34 @@ Theorem C15_ctor_args_to : forall sigma jb a args,
 Proof. exact analyse_ctor_args_to. Qed.
 Print Assumptions C15_ctor_args_to.
 
+(* ... and the same for the constructor call of FromX (`*s = *NewS(...)`): one
+   argument per parameter of the SOURCE type's constructor, in order, each the
+   zero value or the value of a name-matching readable field of the destination
+   side.  Name matching uses NO tag map in this direction (makeCtorMatch passes
+   nil: open finding K_map_ctor_from_tag), which is why the statement has []. *)
+Theorem C15_ctor_args_from : forall sigma jb a args,
+  analyse sigma jb = Some a -> acc_guard jb -> fn_names_ok jb -> pl_ctor (a_from a) = Some args ->
+  map fst args = map cp_path (j_src_ctor jb)
+  /\ Forall2 (fun arg c =>
+       snd arg = CZero (cp_ty c)
+       \/ exists df h, snd arg = CVal (ref_of df) h /\ In df (s_dst (a_state a)) /\ f_isset df = false
+                       /\ can_name_match df (ctor_field c) [] (j_ic jb) = true
+                       /\ ctor_applicable (j_env jb) (j_funcs jb) (f_ty df) (cp_ty c) h)
+     args (j_src_ctor jb).
+Proof. exact analyse_ctor_args_from. Qed.
+Print Assumptions C15_ctor_args_from.
+
+(* FromX writes through setters / plain fields soundly, as ToX does *)
+Theorem C15_sound_from : forall sigma jb a,
+  analyse sigma jb = Some a -> acc_guard jb ->
+  forall st, In st (pl_stmts (a_from a)) ->
+  exists sf df, In sf (s_src (a_state a)) /\ In df (s_dst (a_state a))
+                /\ st_src st = ref_of df /\ st_dst st = ref_of sf
+                /\ can_name_match sf df (p_tags (a_src_parsed a)) (j_ic jb) = true
+                /\ applicable (j_env jb) (j_funcs jb) false df sf (st_how st).
+Proof. exact analyse_sound_from. Qed.
+Print Assumptions C15_sound_from.
+
 (* ---- reading through getters / writing through setters is sound as in C05 *)
 Theorem C15_sound_to : forall sigma jb a,
   analyse sigma jb = Some a -> acc_guard jb ->
